@@ -21,6 +21,11 @@ Measured (all on the working tree, every run):
     process_attribs starts and every access word `w` of a statement naming it, the permission afterwards
     (`itemTrans`, `varTrans`: triples (cur, w, result)).  The model has "a recognised word overwrites" built in;
     `apply_tables_sound` proves the measured tables say exactly that.
+  * the same transitions for the objects FORD keeps for a **separate module procedure whose body stands in the module
+    of its interface** (`probe_own_bodies`): `sepBodyTrans` (long-form body, a member of `subroutines`/`functions`),
+    `sepIfaceTrans` (the interface entries), `sepShortTrans` (short-form body, `modprocedures`);
+    `own_module_body_tables_sound` proves the first two say "a recognised word overwrites" and the third is either
+    that or "nothing reaches the body" (the known defect)
   * the permission a child inherits, for every child kind, in a module / submodule after every sequence of at most
     one bare statement, and in the component part / binding part of a derived type (type public / private) after
     `private`/`public`/`protected` before / after CONTAINS.  The thirteen structural parameters of the model
@@ -679,6 +684,51 @@ end submodule c04_tr_s2
     return {"implShortTakesIface": verdict(short, "`module procedure`"), "implLongTakesIface": verdict(long_, "`module subroutine`")}
 
 
+def probe_own_bodies(pr: Prober) -> dict:
+    """The body of a separate module procedure in the module that declares its interface (one entity, two or three
+    objects in FORD).  For every module default `cur` (none / bare private) and access word `w`: a module with
+    `w :: e1, e2`, the interface bodies `module subroutine e1` / `module function e2`, and in the procedure part the
+    long-form body of e1 (`module subroutine e1(x)`) and the short-form body of e2 (`module procedure e2`).
+    Measured after process_attribs: `sepBodyTrans` = (cur, w, permission of the long-form body), `sepIfaceTrans` =
+    the same for the two interface entries, `sepShortTrans` = for the short-form body."""
+    texts, meta = {}, {}
+    for cur in ("public", "private"):
+        for w in W:
+            name = pr.fresh()
+            texts[name] = "\n".join([
+                f"module {name}"] + (["  private"] if cur == "private" else []) + [
+                f"  {w} :: e1, e2",
+                "  interface",
+                "    module subroutine e1(x)", "      integer :: x", "    end subroutine e1",
+                "    module function e2(x) result(r)", "      integer :: x", "      integer :: r", "    end function e2",
+                "  end interface",
+                "contains",
+                "  module subroutine e1(x)", "    integer :: x", "    x = 1", "  end subroutine e1",
+                "  module procedure e2", "    r = x", "  end procedure e2",
+                f"end module {name}", ""])
+            meta[name] = (cur, w)
+    units = pr.parse_many(texts)
+    body, iface, short = {}, {}, {}
+    for name, (cur, w) in meta.items():
+        u = units[name]
+        if u is None:
+            raise NotFound(f"own-module body probe could not be parsed: {texts[name]!r}")
+        longs = [x.permission for x in u.subroutines if x.name.lower() == "e1"]
+        shorts = [x.permission for x in getattr(u, "modprocedures", []) if x.name.lower() == "e2"]
+        ifs = {x.name.lower(): x.permission for x in u.interfaces}
+        if len(longs) != 1 or len(shorts) != 1 or set(ifs) != {"e1", "e2"}:
+            raise NotFound(f"own-module body probe: long-form bodies {longs}, short-form bodies {shorts}, interface entries "
+                           f"{sorted(ifs)} (expected one e1, one e2, interfaces e1 and e2)")
+        if ifs["e1"] != ifs["e2"]:
+            raise NotFound(f"own-module body probe: `{w} :: e1, e2` leaves the interface entries at {ifs}")
+        for v in longs + shorts + list(ifs.values()):
+            if v not in PERM:
+                raise NotFound(f"own-module body probe: permission {v!r}")
+        body[(cur, w)], short[(cur, w)], iface[(cur, w)] = longs[0], shorts[0], ifs["e1"]
+    tri = lambda d: sorted((c, w, r) for (c, w), r in d.items())
+    return {"sepBodyTrans": tri(body), "sepIfaceTrans": tri(iface), "sepShortTrans": tri(short)}
+
+
 def extract(repo: Path | None = None) -> dict:
     from harness import common
 
@@ -691,6 +741,7 @@ def extract(repo: Path | None = None) -> dict:
         t.update(measure_words(pr, inherited, tinh))
         t.update(probe_getter(pr))
         t.update(measure_passes(pr, t["applyWords"], t["applyVarWords"], t.pop("_specTrans"), t["readGeneric"]))
+        t.update(probe_own_bodies(pr))
         t["probe_parses"] = pr.parses
     t.update(probe_impl())
     t.update(probe_decl_names())
@@ -811,7 +862,7 @@ def render(t: dict) -> str:
     for k in ("bareSetsChild", "bareSetsSelf", "readGeneric", "readWrapper", "readModule", "implShortTakesIface",
               "implLongTakesIface"):
         L.append(f"def {k} : Bool := {'true' if t[k] else 'false'}")
-    for k in ("itemTrans", "varTrans"):
+    for k in ("itemTrans", "varTrans", "sepBodyTrans", "sepIfaceTrans", "sepShortTrans"):
         L.append(f"def {k} : List (Perm × Perm × Perm) := [" + ", ".join(
             f"({PERM[c]}, {PERM[w]}, {PERM[r]})" for c, w, r in t[k]) + "]")
 
